@@ -77,6 +77,18 @@ def expandTF (cells : List Slice) (t : String) : Option (Op Int) :=
   | ["settf", c, i, v] => match c.toNat?, i.toNat?, parseIntTok v with
     | some c, some i, some v => some (leafWrite nilElem ⟨[], cells⟩ c i v)
     | _, _, _ => none
+  | ["subList", c, a, b] =>
+    -- `SubList(start, end)`: `end <= 0` is counted from the end of the list (`Count + end`); an end beyond the count or below
+    -- `-Count`, a start above the end or below zero panic (the normalisation `L.subList` models and `C05_subList_spec` states)
+    match c.toNat?, parseIntTok a, parseIntTok b with
+    | some c, some a, some b =>
+      let len : Int := match cells[c]? with | some s => (s.len : Int) | none => 0
+      let panicOp : Op Int := .subList c 1 0
+      if b > len || b < -len then some panicOp
+      else
+        let e := if b ≤ 0 then len + b else b
+        if a > e || a < 0 then some panicOp else some (.subList c a.toNat e.toNat)
+    | _, _, _ => none
   | ["unsettf", c, i] => match c.toNat?, i.toNat? with
     | some c, some i => some (leafUnset c i) | _, _ => none
   | _ => parseSlOp t
